@@ -993,6 +993,8 @@ def item(t, i):
                 return mk_index(src[2][0], t[2])
         if src[0] == 'call' and src[1] == ('g', 'builtins.zip') and i < len(src[2]):
             return ('iter', src[2][i], t[2])
+    if t[0] == 'call' and t[1] == ('g', 'builtins.divmod') and len(t[2]) == 2 and not t[3] and i in (0, 1):
+        return fold_bin('//' if i == 0 else '%', t[2][0], t[2][1])      # q, r = divmod(a, b)
     return ('item', t, i)
 
 
